@@ -3,6 +3,7 @@ package c17
 import (
 	"context"
 	"fmt"
+	"k8s.io/apimachinery/pkg/api/meta"
 	"math/rand"
 	"sync"
 
@@ -32,6 +33,30 @@ func init() {
 	for _, n := range []string{"q1", "q2"} {
 		universe = append(universe, object.ObjMetadata{Namespace: "ns2", Name: n, GroupKind: schema.GroupKind{Kind: "Pod"}})
 	}
+	// a kind the REST mapper does not know yet (a custom resource applied together with its CRD):
+	// validateIdentifiers must let it pass and the engine polls it like any other identifier
+	noMatchID = len(universe)
+	universe = append(universe, object.ObjMetadata{Namespace: "ns2", Name: "w", GroupKind: schema.GroupKind{Group: "custom.example.com", Kind: "Widget"}})
+	// a kind for which the REST mapper fails with something else than "no match": validateIdentifiers
+	// must give up with that error
+	mapperErrID = len(universe)
+	universe = append(universe, object.ObjMetadata{Namespace: "ns2", Name: "b", GroupKind: schema.GroupKind{Group: "custom.example.com", Kind: "Broken"}})
+}
+
+var noMatchID, mapperErrID int
+
+// preID: identifiers that only make validateIdentifiers fail; they are never polled.
+func preID(i int) bool { return i == invalidID || i == mapperErrID }
+
+// engineMapper is the mapper handed to the engine: the static one, except that the kind Broken makes it
+// fail with an error that is not a NoMatch error.
+type brokenKindMapper struct{ meta.RESTMapper }
+
+func (m brokenKindMapper) RESTMapping(gk schema.GroupKind, versions ...string) (*meta.RESTMapping, error) {
+	if gk.Kind == "Broken" {
+		return nil, fmt.Errorf("discovery unavailable e997")
+	}
+	return m.RESTMapper.RESTMapping(gk, versions...)
 }
 
 type snapshot struct {
@@ -50,6 +75,9 @@ var (
 type realEnv struct {
 	*env
 	snaps []snapshot
+	// ctxErrs counts the context errors this cluster reader has answered with: a status reader that
+	// receives one must hand it on (nil status, the error), never turn it into a status
+	ctxErrs int
 }
 
 func (e *realEnv) snap() *snapshot {
@@ -64,6 +92,9 @@ func (e *realEnv) Get(_ context.Context, key client.ObjectKey, obj *unstructured
 	id := object.ObjMetadata{Namespace: key.Namespace, Name: key.Name, GroupKind: gk}
 	s := e.snap()
 	if m := s.getErr[id]; m != nil {
+		if m.isCtx() {
+			e.ctxErrs++
+		}
 		return m.goErr()
 	}
 	for _, o := range s.objs {
@@ -79,6 +110,9 @@ func (e *realEnv) ListNamespaceScoped(_ context.Context, list *unstructured.Unst
 	kind := list.GroupVersionKind().Kind
 	s := e.snap()
 	if m := s.listErr[kind]; m != nil {
+		if m.isCtx() {
+			e.ctxErrs++
+		}
 		return m.goErr()
 	}
 	for _, o := range s.objs {
@@ -343,7 +377,17 @@ func runReal(r *rand.Rand, maxPolls int) (*scenario, observation) {
 	base := &env{}
 	re.env = base
 	base.read = func(ctx context.Context, e *env, round int, id object.ObjMetadata) (*event.ResourceStatus, error) {
+		ctxBefore := re.ctxErrs
 		rs, err := realReader.ReadStatus(ctx, re, id)
+		if re.ctxErrs > ctxBefore && err == nil {
+			st := "nil"
+			if rs != nil {
+				st = fmt.Sprintf("%s, %d generated", rs.Status, len(rs.GeneratedResources))
+			}
+			realMu.Lock()
+			realFailures = append(realFailures, fmt.Sprintf("status reader of %s got a context error from the cluster reader and returned a status (%s) instead of the error", id, st))
+			realMu.Unlock()
+		}
 		p := &sc.polls[round]
 		i := idx(id)
 		if _, seen := p.reads[i]; !seen {
